@@ -53,6 +53,7 @@ Inductive expr :=
 | EUpdate (l r : expr)                         (* l |= r *)
 | ECompound (o : binop) (l r : expr)           (* l o= r *)
 | EDel (e : expr)
+| EObject (entries : list (expr * expr))    (* {k1: v1, k2: v2, ...} *)
 | EEmpty.
 
 Definition vars := list (str * list ptr).
@@ -685,6 +686,43 @@ Fixpoint del_loop (fuel : nat) (victims : list ptr) (cx : list ptr) (st0 : store
       end
   end.
 
+(* one `key: value` pair of an object construction, as a single-entry map *)
+Definition pair_calc (st : store) (k v : ptr) : res out :=
+  let* kn := deref_r st k in
+  let* vn := deref_r st v in
+  match kn with
+  | Scalar TStr kt => if is_wild kt then Unsup else one (alloc_fresh st (Map [(kt, vn)]))
+  | _ => Unsup
+  end.
+
+Fixpoint read_pairs (st : store) (ps : list ptr) : res (list (str * node)) :=
+  match ps with
+  | [] => Ok []
+  | p :: r =>
+      let* n := deref_r st p in
+      match n with
+      | Map [(k, v)] => let* rest := read_pairs st r in Ok ((k, v) :: rest)
+      | _ => Unsup
+      end
+  end.
+
+(* createMap + collectObject for one input node: first-entry-major product of the entries' pairs *)
+Fixpoint obj_entries (ev : expr -> bool -> vars -> list ptr -> store -> res out) (ro : bool) (vs : vars) (c : ptr)
+         (l : list (expr * expr)) (acc : list (list (str * node))) (st1 : store)
+  : res (list (list (str * node)) * store) :=
+  match l with
+  | [] => Ok (acc, st1)
+  | (ke, ve) :: rest =>
+      let* o := cross ev false no_short (lift2 pair_calc) ke ve ro vs [c] st1 in
+      let* pairs := read_pairs (snd o) (fst o) in
+      (* collect(): an empty aggregate is simply replaced by the next entry's alternatives *)
+      obj_entries ev ro vs c rest
+                  (match acc with
+                   | [] => List.map (fun kv => [kv]) pairs
+                   | _ => flat_map (fun a => List.map (fun kv => add_maps a [kv]) pairs) acc
+                   end) (snd o)
+  end.
+
 (* AddChild each pointed-to node (in its current state) into a new item list *)
 Fixpoint collect_items (st : store) (ps : list ptr) (acc : list (rkey * node)) : res (list (rkey * node)) :=
   match ps with
@@ -754,6 +792,9 @@ Fixpoint eval (fuel : nat) (e : expr) (ro : bool) (vs : vars) (ctx : list ptr) (
         end
     | EKey k => each (trav_key ro k) ctx st
     | EIndex l idx =>
+        (* collectObjectOperator hands back a WritableClone: indexing an object construction
+           directly inside a read-only context is outside the model *)
+        if ro && (match l with EObject _ => true | _ => false end) then Unsup else
         let* ol := ev l ro vs ctx st in
         (* the index expression is a collect evaluated read-only on the *context*; only its first result is used *)
         let* oi := ev (ECollect idx) true vs ctx (snd ol) in
@@ -1001,7 +1042,37 @@ Fixpoint eval (fuel : nat) (e : expr) (ro : bool) (vs : vars) (ctx : list ptr) (
                     mk_bool (snd r) (Some c) (if want then fst r else negb (fst r))
                 | _ => Err
                 end) ctx st
-    | EJoin _ | ESplit _ => Unsup
+    | EJoin e1 =>
+        let* o := ev e1 true vs ctx st in
+        let* sep := first_text (snd o) (fst o) [] in
+        each (fun c st0 =>
+                let* n := deref_r st0 c in
+                match n with
+                | Seq items =>
+                    let texts := List.map (fun it => match snd it with
+                                                     | Scalar TNull _ => []
+                                                     | Scalar _ v => v
+                                                     | _ => []
+                                                     end) items in
+                    one (alloc_repl st0 c (Scalar TStr (join_strs sep texts)))
+                | _ => Err
+                end) ctx (snd o)
+    | ESplit e1 =>
+        let* o := ev e1 true vs ctx st in
+        let* sep := first_text (snd o) (fst o) [] in
+        match sep with
+        | [] => Unsup       (* strings.Split(s, "") cuts into UTF-8 sequences *)
+        | _ =>
+            each (fun c st0 =>
+                    let* n := deref_r st0 c in
+                    match n with
+                    | Scalar TNull _ => Ok ([], st0)
+                    | Scalar TStr v =>
+                        let parts := match v with [] => [] | _ => split_on (S (length v)) sep v [] end in
+                        one (alloc_repl st0 c (Seq (renumber_from 0 (List.map (Scalar TStr) parts))))
+                    | _ => Err
+                    end) ctx (snd o)
+        end
     | EAs src x body =>
         let single cx st0 :=
           let* ol := ev src true vs cx st0 in
@@ -1101,6 +1172,21 @@ Fixpoint eval (fuel : nat) (e : expr) (ro : bool) (vs : vars) (ctx : list ptr) (
            parent by its *recorded* key, not by identity *)
         let victims := dedupe_ptrs (rev (fst o)) [] in
         del_loop (length victims) victims ctx (snd o)
+    | EObject es =>
+        (* createMapOperator per entry, then collectObjectOperator: for each input node the
+           first-entry-major product of the (key, value) pairs the entries yield; an entry that
+           yields nothing makes the product empty.  Keys must be strings, distinct and not patterns. *)
+        match es with
+        | [] => one (alloc_fresh st (Map []))
+        | _ =>
+            match ctx with
+            | [] => Unsup
+            | _ =>
+                each (fun c st0 =>
+                        let* r := obj_entries ev ro vs c es [] st0 in
+                        each (fun m st2 => one (alloc_fresh st2 (Map m))) (fst r) (snd r)) ctx st
+            end
+        end
     end
   end.
 
